@@ -491,6 +491,46 @@ def many_invocations(n, cpu, body_len):
     return "\n".join(lines) + "\n", "\n".join(exp) + "\n"
 
 
+def bulk_definitions(n, cpu, rnd):
+    """n definitions of every kind (equ, .define, #define with a parameter, .macro) - far more than one 32 KiB
+    definition pool holds - followed by uses of early, middle and late ones, against the hand-substituted program"""
+    lines = [".%s" % cpu]
+    exp = [".%s" % cpu]
+    kinds = []
+    for i in range(n):
+        k = rnd.choice(["equ", "equ", "define", "fdefine", "macro"])
+        kinds.append(k)
+        name = "bulk_%s_name_%05d" % (k, i)
+        if k == "equ":
+            lines.append("%s equ %d" % (name, 1000 + i))
+        elif k == "define":
+            lines.append(".define %s (%d + 1)" % (name, i))
+        elif k == "fdefine":
+            lines.append("#define %s(p) (p + %d)" % (name, i))
+        else:
+            lines += [".macro %s(q)" % name, "  .dw q, %d" % (i & 0x7fff), ".endm"]
+    picks = sorted(set([0, 1, n // 2, n - 2, n - 1] + [rnd.randrange(n) for _ in range(60)]))
+    for j, i in enumerate(picks):
+        k = kinds[i]
+        name = "bulk_%s_name_%05d" % (k, i)
+        if j % 10 == 0:
+            lines.append("blab%d:" % j)
+            exp.append("blab%d:" % j)
+        if k == "equ":
+            lines.append("  .dw %s" % name)
+            exp.append("  .dw %d" % (1000 + i))
+        elif k == "define":
+            lines.append("  .dw %s * 2" % name)
+            exp.append("  .dw (%d + 1) * 2" % i)
+        elif k == "fdefine":
+            lines.append("  .dw %s(7)" % name)
+            exp.append("  .dw (7 + %d)" % i)
+        else:
+            lines.append("  %s(%d)" % (name, j))
+            exp.append("  .dw %d, %d" % (j, i & 0x7fff))
+    return "\n".join(lines) + "\n", "\n".join(exp) + "\n"
+
+
 def run(tier, seed, shard, nshards):
     s = Stats()
     w = Worker("c09")
@@ -535,6 +575,9 @@ def run(tier, seed, shard, nshards):
                                  [(40, "msp430", 40), (700, "msp430", 1), (300, "avr8", 3), (3000, "z80", 2),
                                   (150, "mips", 30)]):
                 fam.append(("many", n_, cpu_, bl))
+            for n_, cpu_ in ([(1500, "msp430"), (2500, "z80")] if tier == "quick" else
+                             [(1500, "msp430"), (2500, "z80"), (8000, "68000"), (30000, "msp430")]):
+                fam.append(("bulk", n_, cpu_))
             for i, f in enumerate(fam):
                 if i % nshards != shard:
                     continue
@@ -544,6 +587,12 @@ def run(tier, seed, shard, nshards):
                     s.count("deep_chain." + f[2])
                     s.nt(("deep_chain", f[1], f[2]))
                     ck.compare(a, [], e, allow_capacity=(f[2] == "grow"))
+                elif f[0] == "bulk":
+                    import random as _r
+                    a, e = bulk_definitions(f[1], f[2], _r.Random(shard_seed(seed, i, "c09bulk")))
+                    s.count("bulk_definitions")
+                    s.nt(f)
+                    ck.compare(a, [], e)
                 else:
                     a, e = many_invocations(f[1], f[2], f[3])
                     s.count("many_invocations")
